@@ -6,7 +6,7 @@ import ast
 
 from .common import *  # noqa: F401,F403
 from .common import (
-    SVC, MOD, TASKVARS, AnalysisError, Ctx, Facts, Registry, U, Unit, await_coro, call_name, lock_held_at, lock_withs, own_nodes,
+    SVC, MOD, TASKVARS, AnalysisError, Ctx, Facts, Registry, U, Unit, await_coro, call_name, eq_atom, lock_held_at, lock_withs, own_nodes,
     own_nodes_with_lambdas, parent, q, where,
 )  # fmt: skip
 from .c01 import exec_handler_sites, handler_invocations
@@ -110,7 +110,7 @@ def c06_2(c: Ctx) -> None:
     if any(q.node_has_await(n) for n in gx.live_nodes()):
         c.fail(ax, '__aexit__ suspends', 'lock release is not atomic with clearing the ownership flag')
     self_ = ax.params()[0]
-    depth_atom = f'{self_}._depth == 0'
+    depth_atom = eq_atom(f'{self_}._depth', '0')
     facts = Facts(lambda a: a in ('holds_global_lock.get()', depth_atom), cg=c.cg, unit=ax, taskvars=TASKVARS)
     for rn in rel:
         sid = {n.id for n in sets_false}
@@ -120,7 +120,7 @@ def c06_2(c: Ctx) -> None:
         else:
             c.fail(ax, 'semaphore.release() reachable without holds_global_lock.set(False) first', 'the lock is released while this context still believes it holds it', node=rn.ast)
         for sf in sets_false:
-            p3 = q.guard_search(gx, sf, f'holds_global_lock.get() and {depth_atom}', facts)
+            p3 = q.guard_search(gx, sf, f'holds_global_lock.get() and {self_}._depth == 0', facts)
             if p3 is None:
                 c.ok(where(ax, sf.ast), 'flag cleared / lock released only by the owner at depth 0')
             else:
